@@ -135,8 +135,8 @@ theorem C03_hyperslab_empty_excluded :
 
 The theorems above are the pieces; the three below are the property's three clauses, each as ONE statement over the
 function pydap calls (`fix_slice` on a whole tuple, `combine_slices` on two tuples, `hyperslab` ∘ `fix_slice`).
-`axisSel N e` = what entry `e` selects on an axis of length `N` (numpy: a valid integer → its position, a slice →
-`sel`); `domAll shape l` = every entry of the expanded tuple lies in the property's domain for its axis. -/
+`entrySel N e` = what entry `e` selects on an axis of length `N` (numpy: a valid integer → its position, a slice →
+`sel`); `tupleDom shape l` = every entry of the expanded tuple lies in the property's domain for its axis. -/
 
 /-- **Clause 1, whole tuples.**  For every shape and every basic index — with or without one Ellipsis, shorter than
     the rank or not — whose entries lie in the domain (`-N ≤ i < N`; slice bounds `≥ -N`, unbounded upwards; steps
@@ -146,15 +146,15 @@ theorem C03_fix_tuple_preserves (idx : List Idx) (shape : List Nat) (l : List Id
     (hexp : (NoEll idx ∧ idx.length ≤ shape.length ∧ l = npExpand idx none shape.length) ∨
       (∃ pre post, idx = pre ++ Idx.ell :: post ∧ NoEll pre ∧ NoEll post ∧
         pre.length + post.length ≤ shape.length ∧ l = npExpand pre (some post) shape.length))
-    (hdom : domAll shape l = true) :
+    (hdom : tupleDom shape l = true) :
     (fixSlice idx shape).length = shape.length ∧
-    List.zipWith axisSel shape (fixSlice idx shape) = List.zipWith axisSel shape l := by
+    List.zipWith entrySel shape (fixSlice idx shape) = List.zipWith entrySel shape l := by
   have hfix : fixSlice idx shape = zipFix l shape := by
     rcases hexp with ⟨h, hl, rfl⟩ | ⟨pre, post, rfl, h1, h2, hl, rfl⟩
     · exact fixSlice_noEll idx shape h hl
     · exact fixSlice_ell pre post shape h1 h2 hl
   rw [hfix]
-  exact ⟨zipFix_length l shape (domAll_length shape l hdom), zipFix_preserves shape l hdom⟩
+  exact ⟨zipFix_length l shape (tupleDom_length shape l hdom), zipFix_preserves shape l hdom⟩
 
 /-- the domain restriction of clause 1 is necessary (and is the property's: bounds in `[-N, N+3]`): a start below
     `-N` is shifted once by `fix_slice` and stays negative, which numpy reads as counted from the end again -/
@@ -193,7 +193,7 @@ theorem C03_combine_tuple (l1 l2 : List Idx)
     non-empty selection.  The text `hyperslab` prints for their normalisation parses back (on characters) to slices
     that select, axis by axis, exactly what the ORIGINAL slices select. -/
 theorem C03_fix_hyperslab_roundtrip (ps : List (Nat × PSlice))
-    (hdom : ∀ p ∈ ps, inDom p.1 (Idx.sl p.2) = true) (hne : ∀ p ∈ ps, sel p.1 p.2 ≠ []) :
+    (hdom : ∀ p ∈ ps, entryDom p.1 (Idx.sl p.2) = true) (hne : ∀ p ∈ ps, sel p.1 p.2 ≠ []) :
     ∃ l', parseHyperslab (hyperslabText (ps.map fun p => fixSl p.1 p.2)) = .ok l' ∧
       l'.length = ps.length ∧
       List.zipWith (fun p s' => sel p.1 s') ps l' = ps.map fun p => sel p.1 p.2 := by
@@ -201,13 +201,13 @@ theorem C03_fix_hyperslab_roundtrip (ps : List (Nat × PSlice))
   · apply parseHyperslab_hyperslabText
     intro s hs
     obtain ⟨p, hp, rfl⟩ := List.mem_map.mp hs
-    obtain ⟨a, b, c⟩ := inDom_sl (hdom p hp)
+    obtain ⟨a, b, c⟩ := entryDom_sl (hdom p hp)
     exact normSl_fixSl p.1 p.2 a b c (hne p hp)
   · clear hne
     induction ps with
     | nil => rfl
     | cons p ps ih =>
-      obtain ⟨a, b, c⟩ := inDom_sl (hdom p (by simp))
+      obtain ⟨a, b, c⟩ := entryDom_sl (hdom p (by simp))
       simp only [List.map_cons, List.zipWith_cons_cons, fix_preserves p.1 p.2 a b c]
       rw [ih (fun q hq => hdom q (by simp [hq]))]
 
@@ -262,16 +262,16 @@ example : (3 : Nat) ∈ sel 10 ⟨some 1, some 8, some 2⟩ := by decide
 example : NormSl ⟨some 2, some 7, some 2⟩ := ⟨2, 7, 2, rfl, by omega, by omega, by omega⟩
 example : fixSlice [Idx.ell, Idx.int (-1)] [3, 4] = [Idx.sl ⟨some 0, some 3, some 1⟩, Idx.int 3] := by decide
 -- the hypotheses of `C03_fix_tuple_preserves` hold for `x[..., -1]` and for `x[-2:9:2]` on shape (3, 4)
-example : domAll [3, 4] (npExpand [] (some [Idx.int (-1)]) 2) = true
-    ∧ List.zipWith axisSel [3, 4] (fixSlice [Idx.ell, Idx.int (-1)] [3, 4]) = [some [0, 1, 2], some [3]] := by decide
-example : domAll [3, 4] (npExpand [Idx.sl ⟨some (-2), some 9, some 2⟩] none 2) = true
-    ∧ List.zipWith axisSel [3, 4] (fixSlice [Idx.sl ⟨some (-2), some 9, some 2⟩] [3, 4]) = [some [1], some [0, 1, 2, 3]] := by
+example : tupleDom [3, 4] (npExpand [] (some [Idx.int (-1)]) 2) = true
+    ∧ List.zipWith entrySel [3, 4] (fixSlice [Idx.ell, Idx.int (-1)] [3, 4]) = [some [0, 1, 2], some [3]] := by decide
+example : tupleDom [3, 4] (npExpand [Idx.sl ⟨some (-2), some 9, some 2⟩] none 2) = true
+    ∧ List.zipWith entrySel [3, 4] (fixSlice [Idx.sl ⟨some (-2), some 9, some 2⟩] [3, 4]) = [some [1], some [0, 1, 2, 3]] := by
   decide
 -- `C03_combine_tuple`: an integer, a strided slice and a missing entry against a longer second tuple
 example : NonNegSl (toSlice (Idx.int 2)) := ⟨by simp [toSlice], by simp [toSlice], by simp [toSlice]⟩
 example : (combine [Idx.int 2, Idx.sl ⟨some 1, some 9, some 2⟩] [Idx.int 0, Idx.sl ⟨some 1, some 3, some 1⟩, Idx.int 4]).map (sel 10)
     = [[2], [3, 5], [4]] := by simp only [combine, List.map]; decide
 -- `C03_fix_hyperslab_roundtrip`: `x[-3::2]` on an axis of 10
-example : inDom 10 (Idx.sl ⟨some (-3), none, some 2⟩) = true ∧ sel 10 ⟨some (-3), none, some 2⟩ ≠ [] := by decide
+example : entryDom 10 (Idx.sl ⟨some (-3), none, some 2⟩) = true ∧ sel 10 ⟨some (-3), none, some 2⟩ ≠ [] := by decide
 
 end Pydap.C03
